@@ -42,6 +42,7 @@ def run(P, rep, tier):
     rep.attempt(r2_frame, P, rep, ctx)
     rep.attempt(r3_domain, P, rep, ctx)
     rep.attempt(r4_policy, P, rep, ctx)
+    rep.attempt(r5_mergeable_shapes, P, rep, ctx)
     rep.floor("C14.R1", 6)
     rep.floor("C14.R2", 6)
     rep.floor("C14.R3", 3)
@@ -227,6 +228,24 @@ def r3_domain(P, rep, ctx):
     for c in mcalls:
         ao = kwarg(c, "allow_overwrite")
         rep.check(ao is not None and norm(ao) == "allow_overwrite", "C14.R3", fi.qual, "recursive merge inherits allow_overwrite", fi.loc(c), construct="allow_overwrite in recursion", message="recursive merge does not pass allow_overwrite on")
+
+
+# ------------------------------------------------------------------------------------------- R5
+def r5_mergeable_shapes(P, rep, ctx):
+    """The merge rule is only defined for 'mergeable' field shapes; the schema check must enforce them for every public field."""
+    fi = P.func("schema.core.check_allowed_types")
+    g = ctx.cfg(fi)
+    loops = [n for n in g.nodes if n.kind == "for" and norm(n.stmt.iter) == "hints.items()"]
+    pub = [t.idx for t in g.nodes if t.kind == "test" and norm(t.exprs[0]) == "not is_public_name(field)"]
+    mt = [t for t in g.nodes if t.kind == "test" and "is_mergeable_type(hint)" in norm(t.exprs[0])]
+    exact = [t.idx for t in mt if norm(t.exprs[0]) == "not is_mergeable_type(hint)"]
+    ok = len(loops) == 1 and bool(pub) and bool(exact) and len(exact) == len(mt) and all(g.every_path_passes(exact, loops[0].idx, src=p, src_label="F") for p in pub) and all(g.exit not in g.reach([b for b, l in g.succ[t] if l == "T"]) for t in exact)
+    rep.check(ok, "C14.R5", fi.qual, "every public field of a schema (inherited, overridden or new) must have a mergeable shape, else TypeError", fi.loc(), construct=f"mergeable test {[norm(t.exprs[0]) for t in mt]}",
+              message=f"check_allowed_types applies the mergeable-shape test under {[norm(t.exprs[0]) for t in mt]}: some public fields (e.g. re-declared inherited ones) escape it, and partials of such schemas merge list/set with scalar values wrongly")
+    hd = [norm(v) for k, v in local_defs(fi).get("hints", []) if v is not None]
+    rep.check(hd == ["cast(Any, schema._typehints)"], "C14.R5", fi.qual, "the test runs over the schema's complete type hints", fi.loc(), construct=f"hints = {hd}", message=f"check_allowed_types iterates over {hd}")
+    im = P.func("schema.partial.is_mergeable_type")
+    rep.check("return _check_type_mergeable(hint, allow_none=True)" in norm(im.node), "C14.R5", im.qual, "is_mergeable_type is the documented shape check", im.loc(), construct="is_mergeable_type", message="is_mergeable_type changed")
 
 
 # ------------------------------------------------------------------------------------------- R4
